@@ -11,7 +11,7 @@ git checkout -q -- . && git clean -fdq
 name=$(python3 -c "import json;print(json.load(open('$SRC/meta.json'))['demo_test_name'])")
 pdir=$(python3 -c "import json;print(json.load(open('$SRC/meta.json')).get('demo_package_dir','.') or '.')")
 tags=$(python3 -c "import json;print(json.load(open('$SRC/meta.json')).get('demo_build_tags','') or '')")
-TAGARG=""; [ -n "$tags" ] && TAGARG="-tags=$tags"
+TAGARG=""; [ -n "$tags" ] && TAGARG="-tags=$tags"; [ "$tags" = "RACE" ] && TAGARG="-race"
 log=""
 cp "$SRC/demo_test.go" "$pdir/zz_seed_demo_test.go"
 if (cd "$pdir" && go test $TAGARG -vet=off -count=1 -run "^${name}\$" . >/tmp/vs.$$.log 2>&1); then clean=PASS; else clean=FAIL; fi
